@@ -104,6 +104,20 @@ def run(rep, tier):
     rep.ob(rb, "owners", ok and len(owners) == 3, "functions issuing load/store/atomic_rmw", expected="3 wrappers, one memory op each, each calling the bounds-check emitter",
            found={k: v for k, v in owners.items()})
 
+    rm = rep.rule("R11.m", "memory operations carry plain MemFlags (only new / endianness): no notrap, readonly, can_move, aligned, trusted or heap/table/vmctx flags that would let Cranelift move or drop an access relative to its bounds-check trap", floor=1)
+    flag_calls = {}
+    for p, fn in F.fns.items():
+        if not fn.get("thir") or not p.startswith("cranelift::"):
+            continue
+        for x in walk(fn["thir"]["body"]):
+            cp = callee_path(x) or "" if x.get("k") == "call" else ""
+            if "MemFlags" in cp:
+                flag_calls.setdefault(cp.split("::")[-1], set()).add(p)
+    allowed = {"new", "set_endianness", "with_endianness", "endianness"}
+    extra = sorted(k for k in flag_calls if k not in allowed)
+    rep.ob(rm, "memflags", bool(flag_calls) and not extra, "MemFlags constructors / modifiers used by the Cranelift compiler",
+           expected=sorted(allowed), found={k: sorted(v) for k, v in flag_calls.items()})
+
     rd = rep.rule("R11.d", "prelude: region variables are (param, param+len) and the 512-byte stack slot", floor=1)
     ok, found = _prelude(cx)
     rep.ob(rd, "prelude", ok, "definitions of mem/mbuf/stack bounds in the function prelude",
